@@ -296,4 +296,134 @@ Section L.
 
   Lemma valid_raise_ok : forall dyn vs fs c p, valid_cfg dyn vs fs c -> validate_raise (NSub dyn vs fs) p (VCfg c) = OOk.
   Proof. intros. unfold Config.validate_raise. rewrite valid_validates by assumption. reflexivity. Qed.
+
+  (* ---------------------------------------------------------------------------------------- *)
+  (* schema validators see the same values before and after                                    *)
+  (* ---------------------------------------------------------------------------------------- *)
+  Lemma leaf_values_assoc : forall k d, NoDup (map fst d) ->
+    assoc str_eqb k (leaf_values d) = match dget k d with Some (VLeaf v) => Some v | _ => None end.
+  Proof.
+    induction d as [|[k0 v0] d IH]; intro Hnd; [reflexivity|].
+    cbn [map fst] in Hnd. inversion Hnd as [|? ? Hn Hnd']; subst. specialize (IH Hnd').
+    unfold leaf_values in *. cbn [flat_map]. unfold dget in *. cbn [assoc].
+    destruct v0 as [v|c0|l]; cbn [app assoc]; destruct (str_eqb k k0) eqn:E; try exact IH; try reflexivity;
+      apply str_eqb_eq in E; subst k0; rewrite IH; rewrite (assoc_notin_none k d Hn); reflexivity.
+  Qed.
+
+  Lemma same_enabled : forall ca cb fs, Forall (slot_pair ca cb) fs ->
+    feature_enabled fs (c_data ca) = feature_enabled fs (c_data cb).
+  Proof.
+    intros ca cb. induction fs as [|[k nd] fs IH]; intro H; [reflexivity|].
+    inversion H as [|? ? H1 H2]; subst. unfold Config.feature_enabled in *. cbn [forallb]. rewrite (IH H2). f_equal.
+    destruct nd as [f|d1 v1 f1|r1 v1 f1]; try reflexivity. destruct (lflag f); [|reflexivity].
+    unfold slot_pair in H1. cbn [fst snd] in H1.
+    destruct (dget k (c_data ca)) as [va|]; [|destruct H1]. destruct (dget k (c_data cb)) as [vb|]; [|destruct H1].
+    destruct va, vb; cbn [Roundtrip.same_slot] in H1; try (destruct H1; fail). subst. reflexivity.
+  Qed.
+
+  Lemma same_vlookup : forall fs ca cb, same_cfg fs ca cb ->
+    NoDup (map fst (c_data ca)) -> NoDup (map fst (c_data cb)) ->
+    (forall k, In k (map fst (c_data ca)) -> In k (map fst fs) \/ In k (c_dyn ca)) ->
+    (forall k, In k (map fst (c_data cb)) -> In k (map fst fs) \/ In k (c_dyn cb)) ->
+    forall k, vlookup k (leaf_values (c_data ca)) = vlookup k (leaf_values (c_data cb)).
+  Proof.
+    intros fs ca cb (Hs & Hd & Hdv) Hna Hnb Hka Hkb k. unfold vlookup. rewrite !leaf_values_assoc by assumption.
+    destruct (in_dec str_dec k (map fst fs)) as [Hin|Hnin].
+    - apply in_map_iff in Hin. destruct Hin as [[k' nd] [Hk Hin]]. cbn [fst] in Hk. subst k'.
+      rewrite Forall_forall in Hs. specialize (Hs _ Hin). unfold slot_pair in Hs. cbn [fst snd] in Hs.
+      destruct (dget k (c_data ca)) as [va|]; [|destruct Hs]. destruct (dget k (c_data cb)) as [vb|]; [|destruct Hs].
+      destruct nd, va, vb; cbn [Roundtrip.same_slot] in Hs; try (destruct Hs; fail); try reflexivity.
+      + subst. reflexivity.
+      + destruct v; try (destruct Hs; fail). reflexivity.
+    - destruct (in_dec str_dec k (c_dyn cb)) as [Hin|Hnd].
+      + rewrite Forall_forall in Hdv. destruct (Hdv _ Hin) as [x [H1 H2]]. rewrite H1, H2. reflexivity.
+      + assert (Ha : dget k (c_data ca) = None).
+        { apply assoc_notin_none. intro Hin. destruct (Hka _ Hin) as [H|H]; [contradiction | rewrite Hd in H; contradiction]. }
+        assert (Hb : dget k (c_data cb) = None).
+        { apply assoc_notin_none. intro Hin. destruct (Hkb _ Hin) as [H|H]; contradiction. }
+        rewrite Ha, Hb. reflexivity.
+  Qed.
+
+  (* ---------------------------------------------------------------------------------------- *)
+  (* the round trip                                                                            *)
+  (* ---------------------------------------------------------------------------------------- *)
+  (* C05's theorems about one field: a stored (validated) value is rendered, and the rendered value is read
+     back and validated to the same stored value *)
+  Hypothesis leaf_roundtrip : forall f x, lvalidate f x = Ok x ->
+    exists b b', lto_basic f x = Ok b /\ lto_python f b = Ok b' /\ lvalidate f b' = Ok x.
+  (* schema validators read the configuration's values by key *)
+  Hypothesis vrun_lookup : forall n l1 l2, (forall k, vlookup k l1 = vlookup k l2) -> vrun n l1 = vrun n l2.
+
+  Definition RTP (dyn : bool) (vs : list N) (fs : list (str * node)) (c : cfg) : Prop :=
+    forall pre1 pre2 w w0 c0, build_cfg w fs = (w0, c0) ->
+      exists ents w' c', cfg_tree None fs pre1 c = Ok (PDict 0 ents) /\
+        load_keys ents w0 pre2 c0 fs dyn = (w', c', OOk) /\ same_cfg fs c' c /\ valid_cfg dyn vs fs c'.
+  Definition RT (n : nat) : Prop :=
+    forall dyn vs fs, (fsize F fs < n)%nat -> forall c, valid_cfg dyn vs fs c -> RTP dyn vs fs c.
+
+  Lemma items_rt : forall n, RT n -> forall vs fs', (fsize F fs' < n)%nat -> forall p1 p2 l, Forall (valid_cfg false vs fs') l ->
+    forall i1 i2 w acc, exists ts w' l', tree_items None fs' p1 l i1 = Ok ts /\
+      cfg_items p2 vs fs' ts i2 w acc = (w', rev acc ++ l', OOk) /\ Forall2 (same_cfg fs') l' l /\ Forall (valid_cfg false vs fs') l'.
+  Proof.
+    intros n HRT vs fs' Hsz p1 p2. induction l as [|it l IH]; intros Hv i1 i2 w acc.
+    - exists [], w, []. cbn [tree_items ConfigLemmas.cfg_items]. rewrite app_nil_r. repeat split; constructor.
+    - inversion Hv as [|? ? Hit Hl]; subst.
+      destruct (build_cfg w fs') as [w1 it0] eqn:Eb.
+      destruct (HRT false vs fs' Hsz it Hit (path_index p1 i1) (path_index p2 i2) w w1 it0 Eb) as (ents & w2 & it1 & Ht & Hld & Hsame & Hval).
+      destruct (IH Hl (i1 + 1) (i2 + 1) w2 (it1 :: acc)) as (ts & w' & l' & Hts & Hci & Hs2 & Hv2).
+      exists (PDict 0 ents :: ts), w', (it1 :: l'). split; [|split; [|split]].
+      + cbn [tree_items]. rewrite Ht, Hts. reflexivity.
+      + cbn [ConfigLemmas.cfg_items]. rewrite Eb. cbv beta iota zeta. rewrite Hld.
+        rewrite (valid_raise_ok false vs fs' it1 (path_index p2 i2) Hval). rewrite Hci.
+        cbn [rev]. rewrite <- app_assoc. reflexivity.
+      + constructor; assumption.
+      + constructor; assumption.
+  Qed.
+
+  Lemma slot_rt : forall n, RT n -> forall nd v, (nsize F nd <= n)%nat -> valid_slot nd v ->
+    forall k fs dyn, fget F k fs = Some nd ->
+    forall p1 pre w cj, c_dyn cj = [] ->
+    exists t w' va, tree_slot None nd p1 v = Ok t /\
+      load_one k t w pre cj fs dyn = (w', store cj k va, OOk) /\ same_slot nd va v /\ valid_slot nd va.
+  Proof.
+    intros n HRT nd v Hsz Hv k fs dyn Hf p1 pre w cj Hdy.
+    destruct nd as [f|d' vs' fs'|req vs' fs'].
+    - destruct v as [x| |]; try (destruct Hv; fail). cbn [Roundtrip.valid_slot] in Hv.
+      destruct (leaf_roundtrip f x Hv) as (b & b' & Hb & Hp & Hv').
+      exists b, w, (VLeaf x). split; [|split; [|split]].
+      + cbn [Config.tree_slot]. rewrite Hb. reflexivity.
+      + unfold load_one. rewrite Hf, Hdy. cbn [smem existsb]. rewrite Hp. unfold Config.set_leaf. rewrite Hv'. reflexivity.
+      + reflexivity.
+      + exact Hv.
+    - destruct v as [|sub|]; try (destruct Hv; fail). apply valid_sub_unfold in Hv.
+      destruct (build_cfg w fs') as [w1 sub0] eqn:Eb.
+      assert (Hs' : (fsize F fs' < n)%nat) by (rewrite nsize_sub in Hsz; lia).
+      destruct (HRT d' vs' fs' Hs' sub Hv p1 (path_join pre k) w w1 sub0 Eb) as (ents & w2 & sub1 & Ht & Hld & Hsame & Hval).
+      exists (PDict 0 ents), w2, (VCfg sub1). split; [|split; [|split]].
+      + rewrite tree_slot_sub. exact Ht.
+      + unfold load_one. rewrite Hf. rewrite set_value_unfold. unfold set_value_body. rewrite Hf, Eb. cbv beta iota zeta.
+        rewrite Hld. rewrite (valid_raise_ok d' vs' fs' sub1 (path_join pre k) Hval). reflexivity.
+      + apply (proj2 (same_sub_unfold _ _ _ _ _)). exact Hsame.
+      + apply (proj2 (valid_sub_unfold _ _ _ _)). exact Hval.
+    - destruct v as [x| |l]; try (destruct Hv; fail).
+      + destruct x; try (destruct Hv; fail). cbn [Roundtrip.valid_slot] in Hv. subst req.
+        exists PNone, w, (VList []). split; [|split; [|split]].
+        * reflexivity.
+        * unfold load_one. rewrite Hf. rewrite set_value_unfold. unfold set_value_body. rewrite Hf. reflexivity.
+        * reflexivity.
+        * apply (proj2 (valid_list_unfold _ _ _ _)). split; [intro; discriminate | constructor].
+      + apply valid_list_unfold in Hv. destruct Hv as [Hreq Hl].
+        assert (Hs' : (fsize F fs' < n)%nat).
+        { change (nsize F (NCfgList req vs' fs')) with (nsize F (NSub false vs' fs')) in Hsz. rewrite nsize_sub in Hsz. lia. }
+        destruct (items_rt n HRT vs' fs' Hs' p1 (path_join pre k) l Hl 0 0 w []) as (ts & w' & l' & Hts & Hci & Hs2 & Hv2).
+        exists (PList 0 ts), w', (VList l'). split; [|split; [|split]].
+        * rewrite tree_slot_list, Hts. reflexivity.
+        * unfold load_one. rewrite Hf. rewrite set_value_unfold. unfold set_value_body. rewrite Hf. rewrite Hci.
+          unfold list_finish. cbn [rev app].
+          assert (Hn : req && is_nil l' = false).
+          { destruct req; [|reflexivity]. destruct l'; [|reflexivity]. inversion Hs2; subst. exfalso. apply Hreq; reflexivity. }
+          rewrite Hn. reflexivity.
+        * apply (proj2 (same_list_unfold _ _ _ _ _)). exact Hs2.
+        * apply (proj2 (valid_list_unfold _ _ _ _)). split; [|exact Hv2]. intros Hr Hnil. subst l'. inversion Hs2; subst. apply Hreq; auto.
+  Qed.
 End L.
